@@ -2286,6 +2286,9 @@ class Fn(
 
         for addr, value in x.items():
             is_selected, subselection = selection.match(addr)
+            # The hit flag is not hierarchical (e.g. under a complement): recurse into
+            # sub-maps and decide at the leaves, exactly as regenerate does.
+            is_selected = True if isinstance(value, dict) else () in subselection
             if is_selected:
                 if isinstance(value, dict) and subselection is not None:
                     # Recursively filter nested choices
